@@ -139,6 +139,21 @@ TA_PROBES = [
 ]
 
 
+# dispatched calls whose arguments the backend rejects
+BE_FAILS = [
+    lambda tl, A, B, Z: tl.reshape(A, (3,)),
+    lambda tl, A, B, Z: tl.dot(A, Z),
+    lambda tl, A, B, Z: tl.transpose(A, (0, 1, 2)),
+    lambda tl, A, B, Z: tl.solve(A, Z[0]),
+]
+TA_FAILS = [
+    lambda ta, A, B, Z: ta.inner(A, Z),
+    lambda ta, A, B, Z: ta.mode_dot(A, Z, 0),
+    lambda ta, A, B, Z: ta.khatri_rao([A, Z[:2, :]]),
+    lambda ta, A, B, Z: ta.multi_mode_dot(A, [Z, Z]),
+]
+
+
 def pick_probe(rng):
     return 0 if rng.random() < 0.5 else rng.randrange(1, 12)
 
@@ -240,7 +255,12 @@ def _gen_ops(rng, cfg, depth, budget):
         elif r < 2.5:
             ops.append({"op": "get", "mgr": mgr})
         elif r < 3.5:
-            ops.append({"op": "probe", "mgr": mgr, "fn": pick_probe(rng)})
+            if rng.random() < 0.12:
+                # a dispatched call that *raises* (arguments the backend rejects): not an observation, but a fault
+                # in the middle of a dispatch - whatever the dispatcher was doing must not outlive it
+                ops.append({"op": "fail", "mgr": mgr, "fn": rng.randrange(4)})
+            else:
+                ops.append({"op": "probe", "mgr": mgr, "fn": pick_probe(rng)})
         elif r < 3.7:
             ops.append({"op": "attr", "mgr": "be"} if "be" in cfg["mgrs"] else {"op": "get", "mgr": mgr})
         elif r < 4.0:
@@ -447,6 +467,17 @@ class Run:
                 except Exception as e:
                     out = "raised:" + type(e).__name__
                 self.ret(h, out)
+            elif k == "fail":
+                import numpy as _np
+
+                Z = _np.zeros((3, 3))
+                try:
+                    if op["mgr"] == "be":
+                        BE_FAILS[op.get("fn", 0) % len(BE_FAILS)](self.E["tl"], self.E["A"], self.E["B"], Z)
+                    else:
+                        TA_FAILS[op.get("fn", 0) % len(TA_FAILS)](self.E["tlt"], self.E["A"], self.E["B"], Z)
+                except Exception:  # the expected outcome; a call that happens to succeed is no observation either
+                    self.cnt_fail = getattr(self, "cnt_fail", 0) + 1
             elif k == "probe":
                 # fn 0/1: two different dispatched functions per manager, so that a per-function
                 # dispatch fault (stale per-name cache, static dispatch of a subset) is observable
@@ -782,6 +813,10 @@ def static_probes(rec, cnt):
             elif o["op"] == "raise":
                 if o["levels"] >= 2 and depth >= 2:
                     cnt.inc("probe:exception_unwinds_>=2_contexts")
+                if o.get("exc") in ("SystemExit", "Falsy", "Chained", "GeneratorExit", "StopIteration"):
+                    cnt.inc("probe:unusual_exception_type_leaves_context")
+            elif o["op"] == "fail":
+                cnt.inc("probe:dispatched_call_raised")
 
     for th in rec["threads"]:
         walk(th["ops"], 0, [])
